@@ -26,6 +26,10 @@ type c21Cfg struct {
 	TopCap int `json:"top"`
 	BotCap int `json:"bot"`
 	MaxReq int `json:"maxreq"`
+	// Engine: the ROB is driven by its engine (the "tick" op runs the engine
+	// until no event is left, so the ROB ticks only when a port woke it up and
+	// only while its ticks report progress) instead of being ticked by hand.
+	Engine bool `json:"engine,omitempty"`
 }
 
 // c21Op: "cfg" (first op only), "issueR", "issueW", "tick", "pull" (the lower
@@ -152,6 +156,12 @@ func c21ExecFull(hist []c21Op) (key string, terminal bool, probs []lib.Problem, 
 				bad(step, "panic:deliver-top", "Deliver on the Top port panicked: %s", msg)
 			}
 		case "tick":
+			if cfg.Engine {
+				if msg := lib.Catch(func() { _ = engine.Run() }); msg != "" {
+					bad(step, "panic:tick", "running the engine panicked: %s", msg)
+				}
+				break
+			}
 			if msg := lib.Catch(func() { comp.Tick() }); msg != "" {
 				bad(step, "panic:tick", "Tick panicked: %s", msg)
 			}
@@ -325,7 +335,64 @@ func c21ExecFull(hist []c21Op) (key string, terminal bool, probs []lib.Problem, 
 		}
 	}
 	outcome = fmt.Sprintf("n%d rx%d done%v", len(issued), received, doneOrder)
-	return sb.String(), false, nil, outcome
+	key = sb.String()
+	if cfg.Engine {
+		// "answers requests": from here on the lower unit completes whatever it
+		// is handed (oldest first), both neighbours take what they are sent and
+		// the engine runs to quiescence in between; every accepted request must
+		// then have been answered. (The instance is discarded afterwards.)
+		outcome = "engine " + outcome
+		got := map[uint64]bool{}
+		msg := lib.Catch(func() {
+			for round := 0; round < 6*cfg.MaxReq+12; round++ {
+				_ = engine.Run()
+				for m := bottom.RetrieveOutgoing(); m != nil; m = bottom.RetrieveOutgoing() {
+					_, isRead := m.(memprotocol.ReadReq)
+					q, _ := m.(memprotocol.AccessReq)
+					k := -1
+					if q != nil {
+						k = int(q.GetAddress()/0x100) - 1
+					}
+					outstanding = append(outstanding, c21Shadow{k: k, id: m.Meta().ID, read: isRead})
+				}
+				if len(outstanding) > 0 && bottom.CanDeliver() {
+					sh := outstanding[0]
+					outstanding = outstanding[1:]
+					var m messaging.Msg
+					if sh.read {
+						var data []byte
+						if sh.k >= 0 && sh.k < len(issued) {
+							data = c21Payload(issued[sh.k].addr)
+						}
+						r := memprotocol.DataReadyRsp{Data: data}
+						r.ID, r.Src, r.Dst, r.RspTo, r.TrafficBytes, r.TrafficClass = timing.GetIDGenerator().Generate(), c21BottomUnit, bottom.AsRemote(), sh.id, 8, "memprotocol.DataReadyRsp"
+						m = r
+					} else {
+						r := memprotocol.WriteDoneRsp{}
+						r.ID, r.Src, r.Dst, r.RspTo, r.TrafficBytes, r.TrafficClass = timing.GetIDGenerator().Generate(), c21BottomUnit, bottom.AsRemote(), sh.id, 4, "memprotocol.WriteDoneRsp"
+						m = r
+					}
+					bottom.Deliver(m)
+				}
+				for m := top.RetrieveOutgoing(); m != nil; m = top.RetrieveOutgoing() {
+					got[m.Meta().RspTo] = true
+				}
+			}
+		})
+		if msg != "" {
+			bad(len(hist)-1, "panic:drain", "the engine-driven drain phase panicked: %s", msg)
+		}
+		for k, r := range issued {
+			if !answered[k] && !got[r.id] {
+				bad(len(hist)-1, "liveness:accepted-request-never-answered", "engine-driven ROB: request #%d was accepted and, although afterwards the lower unit completed everything it was handed and both neighbours kept taking messages, it was never answered (lower unit had completed in order %v before the drain)", k, doneOrder)
+				break
+			}
+		}
+		if len(probs) > 0 {
+			return "", true, probs, ""
+		}
+	}
+	return key, false, nil, outcome
 }
 
 func c21IDs(rs []c21Req) []uint64 {
@@ -344,6 +411,9 @@ func c21Configs(c *lib.Ctx) []c21Cfg {
 			for _, topCap := range []int{1, 2} {
 				for _, botCap := range []int{1, 2} {
 					out = append(out, c21Cfg{Buf: buf, Width: width, TopCap: topCap, BotCap: botCap, MaxReq: maxReq})
+					if buf >= 2 {
+						out = append(out, c21Cfg{Buf: buf, Width: width, TopCap: topCap, BotCap: botCap, MaxReq: maxReq, Engine: true})
+					}
 				}
 			}
 		}
@@ -356,10 +426,10 @@ func init() {
 	lib.Register(&lib.Check{
 		ID:    "C21",
 		Level: "model_checking",
-		Rule: "for every configuration buffer size {1,2,4} x requests per cycle {1,2} x Top port capacity {1,2} x Bottom port capacity {1,2}: explicit-state BFS to depth 20 (quick, <= 3 requests) / until the state space closes (thorough, <= 5 requests; cap 60) over " +
+		Rule: "for every configuration buffer size {1,2,4} x requests per cycle {1,2} x Top port capacity {1,2} x Bottom port capacity {1,2} x {ticked by hand; for buffer sizes >= 2 also engine-driven: 'Tick' runs the ROB's serial engine until no event is left, so the ROB only ticks when a port notification woke it and while its ticks report progress}: explicit-state BFS to depth 20 (quick, <= 3 requests) / until the state space closes (thorough, <= 5 requests; cap 60) over " +
 			"{issue read, issue write (when the Top port can take it), Tick, lower unit pulls all forwarded requests, lower unit completes its i-th outstanding request (any order; when the Bottom port can take it), requester receives all responses} " +
 			"on the real rob.Comp with real ports; every request has its own address, requester (alternating between two) and ID, and the lower unit's read data is a function of the address it was asked for. " +
-			"Oracle at every receive: the k-th response answers the k-th accepted request (RspTo = its ID), goes to its requester, has its kind and, for reads, the lower unit's data for that request; no extra or duplicate response; no panic. " +
+			"Oracle at every receive: the k-th response answers the k-th accepted request (RspTo = its ID), goes to its requester, has its kind and, for reads, the lower unit's data for that request; no extra or duplicate response; no panic; engine-driven configurations additionally end every history with a drain phase (lower unit completes oldest-first whatever it is handed, neighbours take everything, engine runs to quiescence in between) after which every accepted request must have been answered. " +
 			"state = configuration, request kinds, Top/Bottom/transaction-table occupancy with has-response flags, lower unit's outstanding list, delivered-but-unparsed completions, responses received (IDs renamed to request indices).",
 		Sharded:     true,
 		MinOutcomes: 10,
